@@ -251,6 +251,23 @@ impl Stream for Script {
             Poll::Ready(Some(i))
         }
     }
+
+    // an exact hint: the upper bound is 0 when only the terminating `None` is left
+    fn size_hint(&self) -> (usize, Option<usize>) {
+        if self.pending_first && !self.toggled {
+            (self.remaining_items(), None)
+        } else {
+            (self.remaining_items(), Some(self.remaining_items()))
+        }
+    }
+}
+
+impl Script {
+    /// Items still to come (the scripted stream knows exactly).
+    fn remaining_items(&self) -> usize {
+        // `total` calls in all; the last one returns None
+        (self.total.saturating_sub(self.calls + 1)) as usize
+    }
 }
 
 impl Sink<u32> for Script {
